@@ -11,6 +11,11 @@ real handlers, as ``Transport.run`` dispatches them; "settle" = the next peer me
 task is finished or blocked for good; the transport task is first or last in the task order) run under generated schedules; switch points: every
 lock/condition/event operation, the send point, and (optionally) every source line of the
 send/close paths of channel.py.
+Round 4: (a) the library's own multi-message calls - the real Channel.sendall / sendall_stderr with 2-6 packets and a multi-packet
+ChannelFile.write - next to the application-level send() loops; (b) the receive side: receive window 2 MiB or 32768, the transport
+task starts with 0-2 inbound DATA / EXTENDED_DATA messages (an unread backlog; sizes a few bytes .. more than the window-adjust
+threshold = a tenth of the window), recv / recv_stderr with read sizes below and above that threshold in every task kind (also
+after the release), and the after-run probe drains both streams: WINDOW_ADJUST is a message like any other for clause 4.
 
 A second engine ("xkex", see run_xkex): a production transport against a raw puppet on the in-memory link; the peer's [DATA] [EOF]
 CLOSE for 1-2 channels cross a re-exchange the tested side has just started (its KEXINIT is held on the link), optionally with a
@@ -31,7 +36,9 @@ Oracle (invariant of the outbound wire log of the channel):
      OSError / EOFError / SSHException.
 For clause 3 the bucket says whether the offending DATA reserved its window *before* the
 EOF/CLOSE was decided (the known ``_send`` window-reservation race: lock released between
-reservation and transmission) or after (a different defect).
+reservation and transmission) or after (a different defect).  It is judged per MESSAGE: the known race covers the one message
+a writer has in flight between its reservation and its transmission; a DATA message that goes out on a reservation the same
+task has already used for an earlier message (state not looked at again) is a bucket of its own.
 """
 import socket
 
@@ -47,16 +54,19 @@ THOROUGH_WORKERS = 16
 RULE = (
     "1-3 application tasks x 1-3 ops (send n, sendall 3 chunks, send_stderr n, shutdown_write, shutdown(2), close, recv, reply-wanting "
     "request exec/shell/subsystem/pty, request without reply env/window-change, shutdown_read, shutdown(1), send_exit_status, stdin-file close, "
-    "file write+flush, file close, sendall_stderr) "
+    "file write+flush (3 bytes | 3 packets), file close, sendall_stderr, the real Channel.sendall / sendall_stderr with 2-6 packets, recv / recv_stderr "
+    "with read sizes 1..8 | 3277 | 4096 | 65536) "
     "+ optional transport task (<=4 of peer WINDOW_ADJUST/DATA/EOF/CLOSE/SUCCESS|FAILURE (unsolicited or answering a pending request)/"
-    "REQUEST exit-status|unknown x want_reply/settle = wait for quiescence of the applications; transport task first|last in task order) on a real Channel over a fake transport (wire log, "
-    "send point = yield point), window in {0,10,2^21}, timeout {0.5,None}; schedules: generated preemption list (<=3 anywhere + "
+    "REQUEST exit-status|unknown x want_reply/settle = wait for quiescence of the applications; transport task first|last in task order; preceded by a backlog "
+    "of 0-2 inbound DATA/EXTENDED_DATA of 1..5 | 1700 | 3277 | 4000 bytes) on a real Channel over a fake transport (wire log, "
+    "send point = yield point), window in {0,10,2^21}, receive window in {2^21, 32768} (WINDOW_ADJUST due after a tenth of it was consumed), timeout {0.5,None}; schedules: generated preemption list (<=3 anywhere + "
     "<=2 placed at the n-th switch point between lock release and transmission) in quick; thorough adds all schedules with <=3 "
     "preemptions (lock-level + send point) of every 2-task program with <=2 ops each over a 9-op alphabet and 6 selected 3-task "
-    "programs and 8 selected request/reply programs, and all <=2-preemption line-level schedules of the single-op pairs; non-trivial = a task switch happened between "
+    "programs, 8 selected request/reply programs and 7 selected multi-message-call / inbound-backlog programs, and all <=2-preemption line-level schedules of the single-op pairs; non-trivial = a task switch happened between "
     "a lock release in _send/close/shutdown/_handle_close and the corresponding transmission; distinct by SHA-1 of the case. Two further program families: "
     "'late' (peer CLOSE guaranteed; 1-2 tasks that wait until both CLOSEs are exchanged and then run 1-4 operations of the whole surface in generated "
-    "order: clause 'operations on a released channel fail instead of sending', judged on the history by operation start vs release point) and "
+    "order: clause 'operations on a released channel fail instead of sending' - any message incl. WINDOW_ADJUST -, judged on the history by operation start vs release point; "
+    "the after-run probe also drains both streams) and "
     "'zero-window' (window 0/10, 2-3 application tasks, peer WINDOW_ADJUST/EOF/CLOSE only after the applications have settled). Family 'xkex' (real transport, "
     "client|server role, vs raw puppet): 1-2 channels x pre-op none|shutdown_write|send x peer messages [data][eof]close|eof|data crossing the tested side's own "
     "KEXINIT (held link) x local close|shutdown_write from an application thread during the exchange; oracle: exactly one CLOSE per peer CLOSE once the exchange is over"
@@ -64,6 +74,13 @@ RULE = (
 
 CHUNK = 4096 - 64
 SENDALL3 = 2 * CHUNK + 1
+# payload sizes of the real Channel.sendall / sendall_stderr (2, 3, 4 and 6 packets of the bench channel's 4096-byte limit)
+BULK_SIZES = [CHUNK + 1, 2 * CHUNK + 1, 4 * CHUNK, 5 * CHUNK + 7]
+# receive side: the bench channel's receive window is 2 MiB or the documented minimum 32768 (WINDOW_ADJUST is due once more than a
+# tenth of it - 3276 bytes - was consumed); inbound messages and read sizes below / around / above that threshold
+IN_WINDOWS = [2 ** 21, 32768, 32768]
+BACKLOG_SIZES = [1700, 3277, 4000]
+READ_SIZES = [3277, 4096, 65536]
 
 data_close_op = st.one_of(
     st.tuples(st.just("send"), st.integers(1, 20)),
@@ -75,7 +92,12 @@ data_close_op = st.one_of(
     st.tuples(st.just("close")),
     st.tuples(st.just("close")),
     st.tuples(st.just("recv"), st.integers(1, 8)),
+    # the library's own multi-packet loops (one call = several DATA / EXTENDED_DATA messages)
+    st.tuples(st.just("sendall"), st.sampled_from(BULK_SIZES)),
+    st.tuples(st.just("sendall_err"), st.sampled_from(BULK_SIZES)),
 )
+# readers of either stream, read sizes below and above the window-adjust threshold
+read_op = st.tuples(st.sampled_from(["recv", "recv_stderr"]), st.one_of(st.integers(1, 8), st.sampled_from(READ_SIZES)))
 request_op = st.one_of(
     st.tuples(st.just("req"), st.sampled_from(["exec", "shell", "subsystem", "pty"])),
     st.tuples(st.just("req"), st.sampled_from(["exec", "shell", "subsystem", "pty"])),
@@ -83,17 +105,24 @@ request_op = st.one_of(
 )
 # further operations of the public surface that (may) transmit: the other shutdown variants, the exit-status request, the file
 # wrappers (ChannelStdinFile.close() half-closes; ChannelFile.write()+flush() sends)
-misc_op = st.sampled_from([("shutdown_read",), ("shutdown1",), ("exit_status",), ("stdin_close",), ("file_write",), ("file_close",), ("sendall_stderr", 7)])
+misc_op = st.sampled_from(
+    [("shutdown_read",), ("shutdown1",), ("exit_status",), ("stdin_close",), ("file_write",), ("file_close",), ("sendall_stderr", 7), ("file_write", 2 * CHUNK + 1)]
+)
 # two levels, so that the request dimension does not thin out the data/close interleavings (3 : 1)
-app_op = st.one_of(data_close_op, data_close_op.map(lambda v: v), data_close_op.map(lambda v: (v)), request_op, misc_op)
+app_op = st.one_of(data_close_op, data_close_op.map(lambda v: v), data_close_op.map(lambda v: (v)), request_op, misc_op, read_op)
 # "life after release": a task that waits until both CLOSEs have been exchanged (the channel is released on both sides) and
 # then goes on operating on the Channel object, any operations in any order
-late_op = st.one_of(data_close_op, request_op, misc_op, misc_op.map(lambda v: v))
+late_op = st.one_of(data_close_op, request_op, misc_op, misc_op.map(lambda v: v), read_op)
 late_task = st.lists(late_op, min_size=1, max_size=4).map(lambda ops: [("await_released",)] + list(ops))
+# inbound data of either stream; sizes: a few bytes, or a sizeable part of / more than the window-adjust threshold
+inbound_op = st.tuples(st.sampled_from(["peer_data", "peer_data_err"]), st.one_of(st.integers(1, 5), st.sampled_from(BACKLOG_SIZES)))
+# what the peer sent earlier: the transport task starts with 0-2 inbound data messages (an unread backlog, unless a reader drains it)
+backlog = st.lists(inbound_op, max_size=2)
 stream_peer_op = st.one_of(
     st.tuples(st.just("adjust"), st.sampled_from([0, 5, 10000])),
     st.tuples(st.just("adjust"), st.sampled_from([1, 5, 10000])),
     st.tuples(st.just("peer_data"), st.integers(1, 5)),
+    inbound_op,
     st.tuples(st.just("peer_eof")),
     st.tuples(st.just("peer_close")),
     st.tuples(st.just("peer_close")),
@@ -113,8 +142,9 @@ peer_op = st.one_of(stream_peer_op, stream_peer_op, request_peer_op)
 case_st = st.fixed_dictionaries(
     {
         "win": st.sampled_from([2 ** 21, 2 ** 21, 10, 0]),
+        "in_win": st.sampled_from(IN_WINDOWS),
         "timeout": st.sampled_from([0.5, 0.5, None]),
-        "peer": st.lists(peer_op, max_size=4),
+        "peer": st.tuples(backlog, st.lists(peer_op, max_size=4)).map(lambda t: list(t[0]) + list(t[1])),
         # position of the transport task in the task order: with the default continuation of a schedule (run the current
         # task until it blocks, then the first runnable one) "first" makes peer messages arrive before the applications
         # act, "last" after they have finished or blocked
@@ -136,8 +166,9 @@ def _with_peer_close(peer, at):
 late_case_st = st.fixed_dictionaries(
     {
         "win": st.sampled_from([2 ** 21, 2 ** 21, 10, 0]),
+        "in_win": st.sampled_from(IN_WINDOWS),
         "timeout": st.sampled_from([0.5, 0.5, None]),
-        "peer": st.tuples(st.lists(peer_op, max_size=3), st.integers(0, 3)).map(lambda t: _with_peer_close(t[0], t[1])),
+        "peer": st.tuples(backlog, st.lists(peer_op, max_size=3), st.integers(0, 3)).map(lambda t: list(t[0]) + _with_peer_close(t[1], t[2])),
         "torder": st.sampled_from(["first", "last"]),
         "apps": st.tuples(st.lists(st.lists(app_op, min_size=1, max_size=3), max_size=2), st.lists(late_task, min_size=1, max_size=2)).map(lambda t: list(t[0]) + list(t[1])),
         "sched": S.schedule_strategy(max_pre=3, max_gap=50, max_forced=12, max_hot=2, hot_range=10),
@@ -155,6 +186,7 @@ _zw_peer_tail = st.lists(
 zero_window_case_st = st.fixed_dictionaries(
     {
         "win": st.sampled_from([0, 0, 10]),
+        "in_win": st.sampled_from(IN_WINDOWS),
         "timeout": st.sampled_from([0.5, None, None]),
         "peer": st.tuples(st.lists(peer_op, max_size=1), _zw_peer_tail).map(lambda t: list(t[0]) + [("settle",)] + list(t[1])),
         "torder": st.sampled_from(["first", "last"]),
@@ -170,7 +202,7 @@ TRACED = {
 }
 # operations that are asked to transmit a payload / a request: on a released channel they raise (the others - shutdown*, close,
 # file close, send_exit_status - may be silent no-ops, but must not send either)
-MUST_RAISE = {"send", "sendall", "sendall3", "send_stderr", "sendall_stderr", "req", "req_nr", "file_write"}
+MUST_RAISE = {"send", "sendall", "sendall3", "send_stderr", "sendall_stderr", "sendall_err", "req", "req_nr", "file_write"}
 CRIT_FUNCS = {"_send", "close", "shutdown", "_handle_close", "_request_failed"}
 REPLY_WAIT = 5.0  # virtual seconds a held-back SUCCESS/FAILURE waits for a request to answer
 
@@ -191,18 +223,21 @@ class Bench:
         tf = {PC.__file__: TRACED} if case.get("trace") else None
         self.s = s = S.Scheduler(strategy, trace_files=tf, max_steps=30000)
         self.ft = CB.FakeTransport(s)
-        self.chan = chan = CB.make_channel(s, self.ft, chanid=1, remote_chanid=7, out_window=case["win"], out_max_packet=4096)
+        self.chan = chan = CB.make_channel(s, self.ft, chanid=1, remote_chanid=7, out_window=case["win"], out_max_packet=4096, in_window=case.get("in_win") or 2 ** 21)
         chan.settimeout(case["timeout"])
         self.peer_close_dispatched = False
+        self.in_threshold = (case.get("in_win") or 2 ** 21) // 10  # consumed bytes after which a WINDOW_ADJUST is due
+        self.probe_drained = 0
         self.op_exc = []
         self.unexpected = []  # (clause, bucket, detail): exceptions that are no legitimate outcome of an operation
         self.excluded_spin = 0
         self.answered = 0
         self.reply_classes = set()
-        # observation points inside the lock-held regions (instance-level wrappers, no change of behaviour)
-        real_wait = chan._wait_for_send_window
-        real_eof = chan._send_eof
-        real_ci = chan._close_internal
+        # observation points inside the lock-held regions (instance-level wrappers, no change of behaviour).  They only refine the
+        # bucket of a clause-3 violation; a tree without one of these private methods is judged without it ("no-reservation-seen")
+        real_wait = getattr(chan, "_wait_for_send_window", None)
+        real_eof = getattr(chan, "_send_eof", None)
+        real_ci = getattr(chan, "_close_internal", None)
 
         # (pass-through signatures: the wrappers must not care how the wrapped methods are called)
         def wait_for_send_window(*a, **kw):
@@ -223,9 +258,12 @@ class Bench:
                 s.note(("close-built", s.current_name()))
             return r
 
-        chan._wait_for_send_window = wait_for_send_window
-        chan._send_eof = send_eof
-        chan._close_internal = close_internal
+        if real_wait is not None:
+            chan._wait_for_send_window = wait_for_send_window
+        if real_eof is not None:
+            chan._send_eof = send_eof
+        if real_ci is not None:
+            chan._close_internal = close_internal
 
     def released(self):
         """Both CLOSEs exchanged: the peer's CLOSE was handled by the channel and ours is on the wire."""
@@ -255,8 +293,17 @@ class Bench:
                 chan.makefile_stdin("wb").close()
             elif k == "file_write":
                 f = chan.makefile("wb")
-                f.write(bytes([salt]) * 3)
+                f.write(bytes([salt]) * (op[1] if len(op) > 1 else 3))
                 f.flush()
+            elif k == "sendall":
+                chan.sendall(bytes([salt]) * op[1])
+            elif k == "sendall_err":
+                chan.sendall_stderr(bytes([salt]) * op[1])
+            elif k == "recv_stderr":
+                self.s.note(("read", tname, 1, len(chan.recv_stderr(op[1]))))
+            elif k == "peer_data_err":
+                if ft.deliver(CB.MSG_CHANNEL_EXTENDED_DATA, 1, 1, bytes([salt]) * op[1]):
+                    self.s.note(("inbound", 1, op[1]))
             elif k == "file_close":
                 chan.makefile("rwb").close()
             elif k == "sendall_stderr":
@@ -288,7 +335,7 @@ class Bench:
             elif k == "close":
                 chan.close()
             elif k == "recv":
-                chan.recv(op[1])
+                self.s.note(("read", tname, 0, len(chan.recv(op[1]))))
             elif k == "req":
                 if op[1] == "exec":
                     chan.exec_command(b"cmd")
@@ -319,7 +366,8 @@ class Bench:
                     self.reply_classes.add("window-adjust-reaches-blocked-writer:" + state)
                 ft.deliver(CB.MSG_CHANNEL_WINDOW_ADJUST, 1, op[1])
             elif k == "peer_data":
-                ft.deliver(CB.MSG_CHANNEL_DATA, 1, bytes([salt]) * op[1])
+                if ft.deliver(CB.MSG_CHANNEL_DATA, 1, bytes([salt]) * op[1]):
+                    self.s.note(("inbound", 0, op[1]))
             elif k == "peer_eof":
                 ft.deliver(CB.MSG_CHANNEL_EOF, 1)
             elif k == "peer_close":
@@ -403,6 +451,16 @@ class Bench:
             f.write(b"p")
             f.flush()
 
+        def drain(f):  # never blocks the (non-task) probe, whatever the state of the pipes
+            old = chan.gettimeout()
+            chan.settimeout(0.0)
+            try:
+                n = len(f(1 << 20))
+            finally:
+                chan.settimeout(old)
+            self.probe_drained += n
+            return n
+
         probes = [
             ("send", lambda: chan.send(b"p")),
             ("shutdown_write", lambda: chan.shutdown_write()),
@@ -415,6 +473,9 @@ class Bench:
             ("req_nr", lambda: chan.resize_pty(9, 9)),
             ("file_write", file_write),
             ("close", lambda: chan.close()),
+            # draining what arrived before the release is fine (and returns data); it must not send anything either
+            ("recv", lambda: drain(chan.recv)),
+            ("recv_stderr", lambda: drain(chan.recv_stderr)),
         ]
         r0 = len(ft.wire) % len(probes)  # order: rotated by the history
         for name, call in probes[r0:] + probes[:r0]:
@@ -475,8 +536,16 @@ def judge(bench, res):
                 if ev[0] == "reserve" and ev[1] == w["task"]:
                     ri = li
                     break
+            # messages the same task already transmitted on this reservation: the known race is "ONE message in flight between
+            # its reservation and its transmission"; a reservation that is used for a further message without looking at the
+            # channel state again is a different defect (judged per message, not per reservation)
+            used = 0
+            if ri is not None:
+                used = sum(1 for li in range(ri + 1, wi) if log[li][0] == "wire" and log[li][1].get("task") == w["task"] and log[li][1]["type"] in ("DATA", "EXTENDED_DATA"))
             if ri is None or first_built is None:
                 how = "no-reservation-seen"
+            elif used:
+                how = "later-message-of-a-reservation-already-used(state-not-rechecked-per-message)"
             elif ri < first_built:
                 how = "window-reserved-before-EOF/CLOSE-was-decided"
             else:
@@ -519,6 +588,43 @@ def judge(bench, res):
                 viol.append(("operation-after-release-sends", name, "%s after both CLOSEs put %d message(s) on the wire (%r)" % (name, logged, r)))
             elif r[0] != "raised" and name in MUST_RAISE:
                 viol.append(("operation-after-release-succeeds", name, "%s after both CLOSEs %r" % (name, r)))
+        if bench.probe_drained > bench.in_threshold:
+            classes.add("released-channel-drained-beyond-window-adjust-threshold:by-probe")
+    # evidence: the receive-side dimension (unread inbound data vs the window-adjust threshold) and multi-message calls
+    thr = bench.in_threshold
+    unread = 0
+    late_read = 0
+    for li, ev in enumerate(log):
+        if ev[0] == "inbound" and (rel is None or li < rel):
+            unread += ev[2]
+        elif ev[0] == "read":
+            if rel is None or li < rel:
+                unread -= ev[3]
+            else:
+                late_read += ev[3]
+    if rel is not None and unread > thr:
+        classes.add("unread-backlog-above-window-adjust-threshold-at-release")
+    if late_read > thr:
+        classes.add("released-channel-drained-beyond-window-adjust-threshold:by-late-reads")
+    if any(t == "WINDOW_ADJUST" for t in types):
+        classes.add("window-adjust-sent")
+    per_call = {}  # (task, log index of the op-start) -> DATA / EXTENDED_DATA messages of that call
+    open_op = {}
+    for li, ev in enumerate(log):
+        if ev[0] == "op-start":
+            open_op[ev[1]] = (li, ev[2])
+        elif ev[0] == "wire" and ev[1]["type"] in ("DATA", "EXTENDED_DATA") and ev[1].get("task") in open_op:
+            st_, name = open_op[ev[1]["task"]]
+            if name in ("sendall", "sendall_err", "file_write"):
+                per_call[(ev[1]["task"], st_)] = per_call.get((ev[1]["task"], st_), 0) + 1
+        elif ev[0] in ("eof-built", "close-built"):
+            for tname, (st_, name) in open_op.items():
+                if name in ("sendall", "sendall_err", "file_write") and tname != ev[1] and per_call.get((tname, st_), 0) >= 1:
+                    classes.add("EOF/CLOSE-decided-between-the-messages-of-one-sendall-call")
+        elif ev[0] == "op-end":
+            open_op.pop(ev[1], None)
+    if any(n >= 2 for n in per_call.values()):
+        classes.add("one-sendall-call-sent-several-messages")
     if res.outcome == "deadlock":
         classes.add("deadlock(blocked recv/send/request; not judged here)")
     elif res.outcome == "budget":
@@ -815,6 +921,19 @@ REQ_PROGS = [
 ]
 
 
+# the library's own multi-message loops (sendall / sendall_stderr / ChannelFile.write) against every way of ending the stream, and a
+# backlog above the window-adjust threshold (receive window 32768) drained before / after the release
+BULK_PROGS = [
+    {"win": W21, "timeout": 0.5, "peer": [], "apps": [[("sendall", 2 * CHUNK + 1)], [("shutdown_write",)]]},
+    {"win": W21, "timeout": 0.5, "peer": [], "apps": [[("sendall_err", 2 * CHUNK + 1)], [("close",)]]},
+    {"win": W21, "timeout": 0.5, "peer": [("peer_close",)], "apps": [[("sendall", 2 * CHUNK + 1)]]},
+    {"win": W21, "timeout": 0.5, "peer": [], "apps": [[("file_write", 2 * CHUNK + 1)], [("shutdown2",)]]},
+    {"win": W21, "timeout": 0.5, "peer": [], "apps": [[("sendall", CHUNK + 1)], [("sendall_err", CHUNK + 1)], [("close",)]]},
+    {"win": W21, "in_win": 32768, "timeout": 0.5, "peer": [("peer_data", 4000), ("peer_close",)], "apps": [[("recv", 4096)], [("await_released",), ("recv", 4096)]]},
+    {"win": W21, "in_win": 32768, "timeout": 0.5, "peer": [("peer_data_err", 1700), ("peer_data_err", 1700), ("peer_eof",)], "apps": [[("recv_stderr", 4096), ("close",)]]},
+]
+
+
 def run_dfs(ctx, programs, k, trace, limit, label):
     complete = True
     for prog in programs:
@@ -843,7 +962,7 @@ def run_dfs(ctx, programs, k, trace, limit, label):
 
 def run(ctx):
     ctx.set_budget(60, 840)
-    ctx.explore(case_st, lambda c: execute(ctx, c), ctx.scale(3600, 24000))
+    ctx.explore(case_st, lambda c: execute(ctx, c), ctx.scale(3300, 24000))
     ctx.explore(late_case_st, lambda c: execute(ctx, c, extra_classes=("late-task-program",)), ctx.scale(1000, 7000), seed_offset=5)
     ctx.explore(zero_window_case_st, lambda c: execute(ctx, c, extra_classes=("zero-window-program",)), ctx.scale(800, 5000), seed_offset=6)
     # real transport vs puppet: the peer's CLOSE crosses a re-exchange started by the tested side (thread/timing engine: no shrinking)
@@ -855,18 +974,21 @@ def run(ctx):
         p1 = dfs_programs(1)
         ok3 = run_dfs(ctx, p1[ctx.worker :: ctx.nworkers], 2, True, 300000, "k2-lines")
         ok4 = run_dfs(ctx, REQ_PROGS[ctx.worker :: ctx.nworkers], 3, False, 300000, "k3-requests")
-        ctx.exhaustive = bool(ok1 and ok2 and ok3 and ok4)
+        ok5 = run_dfs(ctx, BULK_PROGS[ctx.worker :: ctx.nworkers], 3, False, 300000, "k3-bulk")
+        ctx.exhaustive = bool(ok1 and ok2 and ok3 and ok4 and ok5)
         ctx.note(
             "dfs_domain",
-            "%d two-task programs (<=2 ops each, 6 app ops + 3 peer ops), %d selected three-task programs and %d selected request/reply programs: all "
+            "%d two-task programs (<=2 ops each, 6 app ops + 3 peer ops), %d selected three-task programs, %d selected request/reply programs and %d "
+            "selected multi-message-call / inbound-backlog programs: all "
             "schedules with <=3 preemptions (lock-level + send point); %d single-op pairs: all schedules with <=2 preemptions at line level"
-            % (len(p2), len(THREE_TASK), len(REQ_PROGS), len(p1)),
+            % (len(p2), len(THREE_TASK), len(REQ_PROGS), len(BULK_PROGS), len(p1)),
         )
     else:
         p1 = dfs_programs(1)
         step = max(1, len(p1) // 6)
         run_dfs(ctx, p1[(ctx.seed % step) :: step][:6], 2, False, 400, "k2-quick")
         run_dfs(ctx, [REQ_PROGS[ctx.seed % len(REQ_PROGS)], REQ_PROGS[(ctx.seed + 3) % len(REQ_PROGS)]], 2, False, 300, "k2-quick-requests")
+        run_dfs(ctx, [BULK_PROGS[ctx.seed % len(BULK_PROGS)], BULK_PROGS[(ctx.seed + 3) % len(BULK_PROGS)]], 2, False, 300, "k2-quick-bulk")
 
 
 def replay(ctx, case):
